@@ -799,6 +799,8 @@ impl Index {
   }
 
   fn begin_write(&self) -> Result<WriteTransaction> {
+    #[cfg(feature = "verif")]
+    crate::verif::point("begin_write", 0)?;
     let mut tx = self.database.begin_write()?;
     tx.set_durability(self.durability)?;
     tx.set_quick_repair(true);
